@@ -16,3 +16,5 @@ require (
 )
 
 replace codeberg.org/TauCeti/mangle-go => /repo
+
+require github.com/anishathalye/porcupine v1.3.0
